@@ -1,20 +1,76 @@
 #!/usr/bin/env python3
-"""Prints the markdown table of seeded changes (DESIGN.md section 7) from seeded/*/meta.json."""
-import json, os, glob
+"""Seed table for DESIGN.md section 7 from seeded/*/meta.json.
+usage: tools/seed_table.py            print the table
+       tools/seed_table.py --design   replace section 7 of DESIGN.md (between '## 7.' and '## 8.')"""
+import glob
+import json
+import os
+import re
+import sys
+
 ROOT = os.path.dirname(os.path.dirname(os.path.abspath(__file__)))
-rows = []
-for p in sorted(glob.glob(os.path.join(ROOT, "seeded", "*", "meta.json"))):
-    m = json.load(open(p))
-    s = (m.get("summary") or "").replace("\n", " ").replace("|", "/")
-    s = s[:230] + ("…" if len(s) > 230 else "")
-    need = (m.get("needs_to_manifest") or "").replace("\n", " ").replace("|", "/")
-    need = need[:200] + ("…" if len(need) > 200 else "")
-    mech = []
-    for c, v in m.get("checks", {}).items():
-        if v["exit"] == 1:
-            mech.append("%s: `%s`" % (c, v["mechanisms"][0] if v["mechanisms"] else "?"))
-    first = "missed at first — " + m["missed_at_first"] if m.get("missed_at_first") else "caught as built"
-    rows.append("| %s | %s | %s | %s | %s |" % (m["id"], s, need, "<br>".join(mech) or "—", first))
-print("| seed | change | needs to manifest | caught by (first mechanism reported) | history |")
-print("|---|---|---|---|---|")
-print("\n".join(rows))
+
+INTRO = """## 7. Self-validation of the monitors: seeded property-breaking changes
+
+Two kinds of evidence that the monitors fire when they should:
+
+**(a) Defects of the pinned tree.** Before any seeding the checks found the ~50 genuine defects of section 6 in the
+unchanged code; each was repaired by a `fix:` commit and the check that found it passes on the repaired tree and fires
+again when the repair is reverted (spot-checked for the `fwd` race under TSan, the batched NLDF cache, the VZMap
+derivative and the POL factor 2).
+
+**(b) Changes written by independent sub-agents.** For every property, fresh sub-agents were given *only* the text of
+the property and their own scratch git worktree of /repo (nothing from /verif) and asked for a realistic change that
+breaks the property, still compiles, keeps the pinned suite at 143 passed, and needs something specific to manifest;
+each came back with `patch.diff` and a demonstration program.  I confirmed every one myself in a scratch worktree
+(`tools/try_seed.py`: pinned suite with the patch = 143 passed, demonstration exits 0 without and 1 with the patch)
+and then ran the property's quick check with `VERIF_REPO=<worktree>`.  The kept changes are in `seeded/<id>/`
+(`patch.diff`, `demo.py`, `meta.json` with trigger, magnitude, my confirmation and the check results).  None of them is
+committed to /repo.  To replay one against /repo itself: `python3 tools/try_seed.py seeded/<id> <property> --in-repo`
+(applies the patch with `git -C /repo apply`, runs the checks, undoes it with `git -C /repo checkout -- .`).
+
+Two rounds (a, b; the second round was told which file/mechanism the first had used and asked for a different layer).
+%(n)d changes are kept; %(first)d were caught by the checks as they stood, %(missed)d were missed at first and led to a
+strengthened check (column *history*; in every such case the miss was a workload gap — an input class, order or
+history the generator did not produce — never a tolerance, and the strengthened check stayed silent on the unchanged
+tree over VERIF_SEED 0-4).  After strengthening, every kept change is caught by the quick tier of its property's check;
+several are also caught by a neighbouring property's check (listed).  What this does *not* show: the seeds are the
+changes these agents thought of; a change whose trigger lies outside every generator's input classes is still missed.
+
+"""
+
+
+def table():
+    rows, n, missed = [], 0, 0
+    for p in sorted(glob.glob(os.path.join(ROOT, "seeded", "*", "meta.json"))):
+        m = json.load(open(p))
+        n += 1
+        s = (m.get("summary") or "").replace("\n", " ").replace("|", "/")
+        s = s[:260] + ("…" if len(s) > 260 else "")
+        need = (m.get("needs_to_manifest") or "").replace("\n", " ").replace("|", "/")
+        need = need[:220] + ("…" if len(need) > 220 else "")
+        mech = []
+        for c, v in m.get("checks", {}).items():
+            if v["exit"] == 1:
+                mech.append("%s: `%s`" % (c, v["mechanisms"][0] if v["mechanisms"] else "?"))
+        if m.get("missed_at_first"):
+            missed += 1
+            first = "missed at first: " + m["missed_at_first"].replace("|", "/")
+        else:
+            first = "caught as built"
+        rows.append("| %s | %s | %s | %s | %s |" % (m["id"], s, need, "<br>".join(mech) or "—", first))
+    head = ["| seed | change | needs to manifest | caught by (first mechanism reported) | history |", "|---|---|---|---|---|"]
+    return "\n".join(head + rows), n, missed
+
+
+if __name__ == "__main__":
+    t, n, missed = table()
+    if "--design" in sys.argv:
+        p = os.path.join(ROOT, "DESIGN.md")
+        s = open(p).read()
+        new = INTRO % {"n": n, "first": n - missed, "missed": missed} + t + "\n\n\n"
+        s2 = re.sub(r"## 7\. .*?(?=## 8\. )", lambda m: new, s, flags=re.S)
+        open(p, "w").write(s2)
+        print("DESIGN.md section 7 rewritten: %d seeds, %d missed at first" % (n, missed))
+    else:
+        print(t)
